@@ -257,8 +257,20 @@ def _embed_core(rng, rows, nc):
     return ridx, cols
 
 
+_SPECIAL_IDS = [0, 10 ** 18, 2 ** 64 + 1, 2 ** 63, 10 ** 6]
+
+
 def _labels(rng, m):
-    return rng.sample(range(1, 60), m)
+    """m distinct alternative ids in arbitrary order; the id 0 (falsy) and huge ids are frequent"""
+    ids = rng.sample(range(0, 60), m)
+    if m and rng.random() < 0.5 and 0 not in ids:
+        ids[rng.randrange(m)] = 0
+    for k in range(m):
+        if rng.random() < 0.08:
+            x = rng.choice(_SPECIAL_IDS)
+            if x not in ids:
+                ids[k] = x
+    return ids
 
 
 def _subsets(alts):
@@ -495,7 +507,7 @@ def generate(tier, seed):
             rows, hidden = _deep_matrix(rng, nr, nc, flips=rng.choice([0, 0, 0, 1]))
         out.append(_rcase(rows, nc, hidden, form=i % 2, gen="fam-big"))
     # ---- (2) instances: exhaustive small ------------------------------------------------------------------
-    label_sets = {0: [], 1: [7], 2: [4, 2], 3: [5, 3, 9], 4: [6, 1, 8, 3]}
+    label_sets = {0: [], 1: [0], 2: [4, 0], 3: [5, 0, 2 ** 64 + 1], 4: [6, 10 ** 18, 0, 3]}
     for m in range(0, 4):
         alts = label_sets[m]
         subs = list(_subsets(alts))
@@ -549,6 +561,39 @@ def generate(tier, seed):
         if hidden is not None:
             tags["planted"] = list(hidden)
         out.append(_icase("vi", alabels, vballots, **tags))
+    # ---- histories: ONE instance object, recognisers interleaved with in-place edits of instance.preferences
+    #      that keep the shape (same number of ballots and alternatives); every call is judged on the CURRENT ballots
+    nhist = 2500 if quick else 25000
+    for i in range(nhist):
+        alts, ballots, _pl = _rand_instance(rng, 6, 6)
+        n = len(ballots)
+        steps = []
+        cur = [list(b) for b in ballots]
+        for k in range(rng.randint(3, 6)):
+            if k > 0:
+                kind = rng.choice(["none", "replace", "replace", "permute", "relabel", "cycle", "interval"])
+                if kind == "replace":
+                    cur[rng.randrange(n)] = [a for a in alts if rng.random() < 0.5]
+                elif kind == "permute":
+                    rng.shuffle(cur)
+                elif kind == "relabel":
+                    sh = list(alts)
+                    rng.shuffle(sh)
+                    mp = dict(zip(alts, sh))
+                    cur = [[mp[a] for a in b] for b in cur]
+                elif kind == "cycle" and len(alts) >= 3 and n >= 3:
+                    tri = rng.sample(alts, 3)
+                    for j, (x, y) in zip(rng.sample(range(n), 3), [(0, 1), (1, 2), (0, 2)]):
+                        cur[j] = [tri[x], tri[y]]
+                elif kind == "interval":
+                    order = list(alts)
+                    rng.shuffle(order)
+                    cur = []
+                    for _ in range(n):
+                        a_ = rng.randrange(len(order))
+                        cur.append(order[a_: rng.randrange(a_, len(order)) + 1])
+            steps.append([DOMAINS.index(rng.choice(DOMAINS)), [list(b) for b in cur]])
+        out.append(case("c05.history", [list(alts), steps], ncat=1 + (i % 2), gen="history"))
     # ---- (3) large planted --------------------------------------------------------------------------------
     nbi = 40 if quick else 400
     for i in range(nbi):
@@ -615,9 +660,33 @@ def _run_matrix(nc, rows):
     return [int(bool(v)), order, iv_list, iv_np]
 
 
-def _run_domain(dom, alts, ballots, ncat):
+def _pref(alts, b, ncat):
+    return (tuple(b),) if ncat == 1 else (tuple(b), tuple(a for a in alts if a not in b))
+
+
+def _run_history(alts, steps, ncat):
+    inst = _instance(alts, steps[0][1], ncat)
+    prefs = inst.preferences                     # the same list object is edited in place throughout
+    out = []
+    for dom_i, ballots in steps:
+        assert len(ballots) == len(prefs)
+        for k, b in enumerate(ballots):
+            newp = _pref(alts, b, ncat)
+            if prefs[k] != newp:
+                prefs[k] = newp
+        inst.multiplicity = {}
+        for p_ in prefs:
+            inst.multiplicity[p_] = inst.multiplicity.get(p_, 0) + 1
+        inst.num_unique_preferences = len(set(prefs))
+        assert inst.preferences is prefs
+        out.append(_run_domain(DOMAINS[dom_i], alts, ballots, ncat, inst=inst))
+    return out
+
+
+def _run_domain(dom, alts, ballots, ncat, inst=None):
     from preflibtools.properties.subdomains.dichotomous import interval, singlecrossing, euclidean, partition
-    inst = _instance(alts, ballots, ncat)
+    if inst is None:
+        inst = _instance(alts, ballots, ncat)
     fn = {"ci": interval.is_candidate_interval, "cei": interval.is_candidate_extremal_interval,
           "vi": interval.is_voter_interval, "vei": interval.is_voter_extremal_interval,
           "wsc": singlecrossing.is_weakly_single_crossing, "de": euclidean.is_dichotomous_euclidean,
@@ -677,6 +746,8 @@ def impl(c):
     op, pl = c["op"], c["payload"]
     if op == "c05.reorder":
         return guarded(_run_reorder, pl[0], c["tags"].get("form", 0))
+    if op == "c05.history":
+        return guarded(_run_history, pl[0], pl[1], c["tags"].get("ncat", 2))
     if op == "c05.matrix":
         return guarded(_run_matrix, pl[0], pl[1])
     if op == "c05.cimat":
@@ -691,6 +762,14 @@ def _plan(c, r):
     op, pl, tags = c["op"], c["payload"], c["tags"]
     okres = isinstance(r, list) and len(r) == 2 and r[0] == 0
     plan = []
+    if op == "c05.history":
+        alts, steps = pl
+        for k, (dom_i, ballots) in enumerate(steps):
+            dom = DOMAINS[dom_i]
+            plan.append((("ref", k), "c05.%s_decide" % dom, [alts, ballots]))
+            if okres and k < len(r[1]) and r[1][k][0] == 1:
+                plan.append((("witness", k), "c05.%s_check" % dom, [alts, ballots, r[1][k][1]]))
+        return plan
     if op == "c05.reorder":
         fam = pl[0]
         if okres and r[1][0] == 2:
@@ -751,6 +830,20 @@ def judge(c, r, mres):
         return {"kind": "exception", "reason": "implementation raised: %s" % (txt,)}
     ans = {lb: m for (lb, _, _), m in zip(_plan(c, r), mres)}
     val = r[1]
+    if c["op"] == "c05.history":
+        steps = c["payload"][1]
+        if len(val) != len(steps):
+            return {"kind": "broken-correspondence", "reason": "history adapter returned %d results" % len(val)}
+        for k, (dom_i, ballots) in enumerate(steps):
+            dom = DOMAINS[dom_i]
+            if val[k][0] != ans[("ref", k)]:
+                return ("call %d (%s) on the same instance object after in-place edits: verdict %s, verified reference "
+                        "decider on the current ballots %r says %s"
+                        % (k + 1, dom, bool(val[k][0]), ballots, bool(ans[("ref", k)])))
+            if val[k][0] == 1 and ans.get(("witness", k)) != 1:
+                return ("call %d (%s) on the same instance object after in-place edits: witness %r rejected by the "
+                        "verified checker for the current ballots %r" % (k + 1, dom, val[k][1], ballots))
+        return None
     if c["op"] == "c05.cimat":
         if "mat" not in ans:
             return "instance_to_ci_matrix: not a 0/1 matrix of shape (ballots, alternatives): %r" % (val,)
@@ -796,6 +889,9 @@ def judge(c, r, mres):
 
 
 def _rows_of(c):
+    if c["op"] == "c05.history":
+        alts, steps = c["payload"]
+        return len(alts), [[int(a in b) for a in alts] for b in steps[-1][1]]
     if c["op"] == "c05.reorder":
         fam = c["payload"][0]
         nr = 1 + max([i for k in fam for i in k], default=-1)
@@ -812,6 +908,9 @@ def nontrivial(c, r, m):
 
 
 def _distinct_cols(c):
+    if c["op"] == "c05.history":
+        alts, steps = c["payload"]
+        return len({tuple(a in b for b in steps[-1][1]) for a in alts})
     if c["op"] == "c05.reorder":
         return len(c["payload"][0])
     if c["op"] == "c05.matrix":
@@ -828,6 +927,18 @@ def stats(c, r, m):
     tags = c["tags"]
     ref = "ref" if any(lb == "ref" for lb, _, _ in _plan(c, r)) else (
         "planted" if "planted" in tags else ("refuted-core" if "core" in tags else "witness-only"))
+    if c["op"] == "c05.history":
+        out_ = ["history calls=%d" % len(c["payload"][1])]
+        if isinstance(v, list) or v == "exc":
+            pass
+        if isinstance(r, list) and len(r) == 2 and r[0] == 0:
+            prev = None
+            for (dom_i, _b), res in zip(c["payload"][1], r[1]):
+                out_.append("history %s verdict=%s" % (DOMAINS[dom_i], res[0]))
+                if prev is not None and prev != res[0]:
+                    out_.append("history verdict changes between consecutive calls")
+                prev = res[0]
+        return out_
     if c["op"] == "c05.reorder":
         nf = len(c["payload"][0])
         return ["reorder_sets verdict=%s" % v, "reorder_sets %s" % ref,
@@ -847,6 +958,11 @@ def stats(c, r, m):
 
 
 def describe(c):
+    if c["op"] == "c05.history":
+        return {"call": "one CategoricalInstance object; before each call instance.preferences is edited in place to "
+                        "the listed approval sets (same number of ballots)",
+                "alternatives_name keys": c["payload"][0],
+                "calls": [[DOMAINS[d], b] for d, b in c["payload"][1]], "categories": c["tags"].get("ncat", 2)}
     if c["op"] == "c05.reorder":
         return {"call": "reorder_sets(%s of tuples)" % ("list" if c["tags"].get("form", 0) == 0 else "dict keys"),
                 "sets": c["payload"][0]}
@@ -860,6 +976,19 @@ def describe(c):
 
 def shrink(c):
     tags = {k: v for k, v in c["tags"].items() if k not in ("planted", "exh", "core")}
+    if c["op"] == "c05.history":
+        alts, steps = c["payload"]
+        for k in range(len(steps)):
+            if len(steps) > 1:
+                yield dict(c, payload=[alts, steps[:k] + steps[k + 1:]], tags=tags)
+        n = len(steps[0][1])
+        for j in range(n):
+            if n > 1:
+                yield dict(c, payload=[alts, [[d, b[:j] + b[j + 1:]] for d, b in steps]], tags=tags)
+        for a in alts:
+            yield dict(c, payload=[[x for x in alts if x != a],
+                                   [[d, [[x for x in bb if x != a] for bb in b]] for d, b in steps]], tags=tags)
+        return
     if c["op"] == "c05.reorder":
         fam = c["payload"][0]
         for i in range(len(fam)):
@@ -896,6 +1025,7 @@ def shrink(c):
 
 THEOREMS_FOR_OP = {
     "c05.matrix": "c1p_decide_correct, c1p_check_correct", "c05.cimat": "ci_reduction",
+    "c05.history": "X_decide_correct, X_check_correct (each call judged on the current ballots)",
     "c05.reorder": "sets_decide_correct, sets_check_correct (reorder_contract -> solve_model_correct, isC1P_model_correct)",
     "c05.ci": "ci_decide_correct, ci_check_correct", "c05.cei": "cei_decide_correct, cei_check_correct",
     "c05.vi": "vi_decide_correct, vi_check_correct", "c05.vei": "vei_decide_correct, vei_check_correct",
